@@ -20,6 +20,18 @@ CHECKS = {
          'Runtime monitoring of the real parser/check front end on generated command lists rendered with noise in every place the grammar ignores; three oracles (identity, idempotent re-parse, listing determines command) over thousands of lists.', '6 C08'),
  'C09': ('round-trip monitor: to_string_base/from_string_base for bases 2..36 and Num Display/from_string executed by hv_num vs Python base conversion and identity',
          'Runtime monitoring of the real conversion code on generated integers (multi-limb, both signs, powers of the base +-1) in all 35 bases and on canonical rationals and NaN.', '6 C09'),
+ 'C03': ('differential run monitor on compiled programs: build_source text (hv_emit) -> rustc -> executable observables vs `hyeong run -O0`, levels 0-2, workloads aimed at the level-2 hand-over (resume index, pending ♡ target, labels, hostile output characters) and dispatch-tree sizes',
+         'Runtime monitoring of real executables produced from the emitted source, unmodified, against the interpreter on the same program and stdin; the reference interpreter admits cases and classifies the hand-over shapes exercised.', '6 C03'),
+ 'C10': ('syscall-level monitor: strace read/write log of a child that calls optimize::optimize with a sentinel on stdin; marker ordering, sentinel conservation, exit status, CPU rlimit as logical work bound',
+         'Runtime monitoring at the OS boundary: any read of stdin, write to stdout/stderr, process exit or unbounded work inside optimize() is observed directly on programs that read first thing, exit immediately, pop stacks 0-2 in every command form, or loop forever with small values.', '6 C10'),
+ 'C11': ('history monitor: semantic events (step rows, output chunks, state dumps, breakpoint lists, exit status) extracted from `hyeong debug` transcripts vs a model of the debugger driving the reference interpreter over generated command scripts',
+         'Runtime monitoring of real debugger sessions: arbitrary interleavings of next/previous/run/state/break with breakpoints at and beyond the program length; every displayed state, every output chunk (exactly once, in order) and absence of crashes are checked.', '6 C11'),
+ 'C12': ('history monitor: per-line output chunks and exit status of interactive `hyeong` sessions vs the whole-program reference run cut at the same command boundaries; plus hv_trace command-by-command execution vs the reference',
+         'Runtime monitoring of real interactive sessions over random splittings into lines (with clear/help/blank lines, jumps back into earlier lines, exits), and of the library mechanism behind it without output-alphabet restriction.', '6 C12'),
+ 'C13': ('outcome monitor: exit status / signal / stderr of `hyeong run -O{0,1,2}` and `check` on generated file bytes, stdin bytes and file names vs the allowed-outcome set and the model-predicted class',
+         'Runtime monitoring of the real CLI on hostile inputs (invalid UTF-8 in files and on stdin, missing files, directories, wrong extensions, unencodable output, deep areas): never panic/abort/signal/hang, status 1 only with a diagnostic.', '6 C13'),
+ 'C14': ('conservation monitor: stdout bytes of copy/reverse programs vs their stdin bytes in six configurations (interpreter -O0/1/2, compiled 0/1/2); expected output computed from the input text alone',
+         'Runtime monitoring of real runs through real pipes on valid UTF-8 texts from all planes, boundary scalar values, CR/LF variants, missing final newline, very long lines and many lines; end of input must appear as NaN and only then.', '6 C14'),
 }
 PENDING = {}
 props = [json.loads(l)['id'] for l in open(os.path.join(ROOT, 'properties.jsonl'))]
